@@ -209,6 +209,11 @@ class Context:
                 proto = value._properties.get("prototype")
                 if isinstance(proto, JSObject):
                     name_members(proto)  # Object.prototype.hasOwnProperty and the like
+                    proto.hide(*proto._properties)
+                if name != "console":
+                    # The members of the standard constructors and namespaces
+                    # (Object.keys, Number.MAX_VALUE, ...) are not enumerable
+                    value.hide(*value._properties)
 
     def _js_to_string(self, value: JSValue) -> str:
         """ToString as scripts see it: an object is converted through its
